@@ -192,7 +192,7 @@ theorem exec_frame (c : Cfg) : ∀ fuel, FrameSpec (exec c fuel)
     intro call s b
     simp only [exec]
     split
-    · exact Keep.of_eq rfl rfl
+    · exact (Keep.push s .fuelOut rfl).trans (Keep.of_eq rfl rfl)
     · exact Keep.rfl' b s
   | fuel + 1 => body_frame c (exec c fuel) (exec_frame c fuel)
 
@@ -400,7 +400,7 @@ theorem exec_J (c : Cfg) : ∀ fuel, ShapeSpec (exec c fuel)
     intro call s h
     simp only [exec]
     split
-    · exact h.of_eq rfl rfl
+    · exact (h.push_none .fuelOut (fun _ => rfl)).of_eq rfl rfl
     · exact h
   | fuel + 1 => body_J c (exec c fuel) (exec_J c fuel) (exec_frame c fuel)
 
@@ -611,7 +611,7 @@ theorem exec_Rf (c : Cfg) : ∀ fuel, RfSpec (exec c fuel)
     intro call s h
     simp only [exec]
     split
-    · exact h.mono rfl id
+    · exact (h.push .fuelOut (fun _ => by simp)).mono rfl id
     · exact h
   | fuel + 1 => body_Rf c (exec c fuel) (exec_Rf c fuel)
 
